@@ -437,6 +437,61 @@ class _KwToPositional(ast.NodeTransformer):
         return node
 
 
+class _DocstringEditor(ast.NodeTransformer):
+    """every function and class gets a docstring sentence more (or a docstring, where it had none)"""
+
+    def _doc(self, node):
+        self.generic_visit(node)
+        b = node.body
+        if b and isinstance(b[0], ast.Expr) and isinstance(b[0].value, ast.Constant) and isinstance(b[0].value.value, str):
+            b[0].value = ast.Constant(b[0].value.value + "\n\n        Reviewed for clarity.\n        ")
+        else:
+            b.insert(0, ast.Expr(ast.Constant("Documented during a clean-up.")))
+        return node
+
+    visit_FunctionDef = visit_ClassDef = _doc
+
+
+class _MessageEditor(ast.NodeTransformer):
+    """the text of every exception message is reworded (type and condition of the exception untouched)"""
+
+    def visit_Raise(self, node):
+        self.generic_visit(node)
+        e = node.exc
+        if isinstance(e, ast.Call) and e.args:
+            a0 = e.args[0]
+            if isinstance(a0, ast.Constant) and isinstance(a0.value, str):
+                e.args[0] = ast.Constant("Invalid input: " + a0.value)
+            elif isinstance(a0, ast.JoinedStr):
+                a0.values.insert(0, ast.Constant("Invalid input: "))
+        return node
+
+
+class _ResultTemporary(ast.NodeTransformer):
+    """`return <call or operation>` becomes `result_ = <...>; return result_`"""
+
+    def visit_FunctionDef(self, node):
+        self.generic_visit(node)
+        node.body = self._block(node.body)
+        return node
+
+    def _block(self, stmts):
+        out = []
+        for st in stmts:
+            for f in ("body", "orelse", "finalbody"):
+                if isinstance(getattr(st, f, None), list) and not isinstance(st, (ast.FunctionDef, ast.ClassDef, ast.AsyncFunctionDef)):
+                    setattr(st, f, self._block(getattr(st, f)))
+            if isinstance(st, ast.Try):
+                for h in st.handlers:
+                    h.body = self._block(h.body)
+            if isinstance(st, ast.Return) and isinstance(st.value, (ast.Call, ast.BinOp, ast.Subscript, ast.Compare)):
+                out.append(ast.Assign(targets=[ast.Name("result_", ast.Store())], value=st.value))
+                out.append(ast.Return(ast.Name("result_", ast.Load())))
+            else:
+                out.append(st)
+        return out
+
+
 def _apply(cls):
     def run(repo_root):
         out = {}
@@ -452,7 +507,10 @@ def _apply(cls):
 
 
 # the rewrites every check must survive (a failure fails the thorough tier)
-GATED = {"unnest-else", "nest-else", "split-guards", "reverse-keywords", "hoist-arguments", "annotate", "log-entry", "extract-constants", "positional-ctor-args"}
+GATED = {"unnest-else", "nest-else", "split-guards", "reverse-keywords", "hoist-arguments", "annotate", "log-entry", "extract-constants", "positional-ctor-args",
+         "edit-docstrings", "reword-messages", "result-temporary"}
 EXTRA.update({"unnest-else": _apply(_ElseUnnester), "nest-else": _apply(_ElseNester), "split-guards": _apply(_GuardSplitter),
               "reverse-keywords": _apply(_KwReverser), "hoist-arguments": _apply(_ArgHoister),
-              "annotate": _apply(_Annotator), "log-entry": _apply(_EntryLogger), "extract-constants": _apply(_ConstExtractor), "positional-ctor-args": _apply(_KwToPositional)})
+              "annotate": _apply(_Annotator), "log-entry": _apply(_EntryLogger), "extract-constants": _apply(_ConstExtractor), "positional-ctor-args": _apply(_KwToPositional),
+              "edit-docstrings": _apply(_DocstringEditor), "reword-messages": _apply(_MessageEditor),
+              "result-temporary": _apply(_ResultTemporary)})
